@@ -8,7 +8,7 @@ from .. import cast, sym, lin
 from .common import distinct_enums
 from ..sym import C, fmt, linearize as L
 from ..lin import Lin
-from .common import loop_counter, base_name
+from .common import loop_counter, base_name, pointer_walk
 from .regs import Regs, T, strip_cast, size_facts, scan_rule, for_headers, wrap_free
 
 FLAGS = ('f', T, 'flags')
@@ -279,7 +279,7 @@ def rule_cd(ck, R, eng, ps):
         def size_atoms(p):
             out = []
             for c in p.cond_terms():
-                for atom in sym.subterms(c):
+                for atom in sym.subterms(eng.expand(c)):
                     item = None
                     if arr == 'area' and atom[0] == 'f' and atom[2] == 'size':
                         item = atom[1]
@@ -422,16 +422,20 @@ def rule_ef(ck, R, eng, ps):
     # e: link
     bad = None
     link = [p for p in ps if len(p.loops) == 5 and p.end == 'loopback']
-    if len(link) < 2:
+    pw = pointer_walk(eng, link)
+    if pw:
+        ck.broken('C04.e', 'link', where, 'the link loop steps the pointer %s; the rule reads index-based table walks only' % pw)
+        link = None
+    if link is not None and len(link) < 2:
         bad = 'area/entry link loop not found'
     origin = eng.clobber_origin
     ent_keys = set()
-    for p0 in link:
+    for p0 in link or []:
         for nx in p0.calls('ra_first_entry_of_next'):
             for k, (h, pre) in p0.loops[-1][1].items():
                 if strip_cast(sym.mem_read(p0.mem, k, h)) == nx.result:
                     ent_keys.add(k)
-    for p0 in link:
+    for p0 in link or []:
         class _P:      # view of the path with 'clobbered' table fields mapped back (nothing in the loop restructures the table)
             pass
         p = _P()
@@ -488,10 +492,13 @@ def rule_ef(ck, R, eng, ps):
                 bad = bad or 'empty area gets first/last/count = %s/%s/%s' % (fmt(first), fmt(last), fmt(count))
             if sym.mem_read(p.mem, ke, he) != he:
                 bad = bad or 'entry index moves on an empty area'
-    ck.verdict(bad is None, 'C04.e', 'link', where,
+    if link is not None:
+      ck.verdict(bad is None, 'C04.e', 'link', where,
                'each area records first = running index, last = next-1, count = next-first where next is the first later entry outside the area; empty areas 0/0/0' if bad is None else bad)
-    psn = R.paths('ra_first_entry_of_next', 'C04.e', sym.Engine(R.u, sizeof=R.so, inline=set()))
-    if psn is not None:
+    psn = R.paths('ra_first_entry_of_next', 'C04.e', sym.Engine(R.u, sizeof=R.so, inline={'ra_reg_is_part_of'}))
+    if psn is not None and pointer_walk(R.eng, psn):
+        ck.broken('C04.e', 'ra_first_entry_of_next', R.where('ra_first_entry_of_next'), 'the search steps a pointer; the rule reads index-based table walks only')
+    elif psn is not None:
         bad = None
         for p in psn:
             if p.end == 'return' and p.loops and p.calls('ra_addr_is_part_of'):
@@ -589,7 +596,8 @@ def run(ck):
     ck.not_decided += ['the exact accept/reject set over all layouts as a whole']
     R = Regs(ck)
     distinct_enums(ck, R.u, 'C04.c', ('REG_INIT_',), 'include/ufw/register-table.h')
-    eng = sym.Engine(R.u, sizeof=R.so, inline={'need_to_load_default'})
+    # one-line forwarders register_init may be written with are looked into (the rules speak of what they forward to)
+    eng = sym.Engine(R.u, sizeof=R.so, inline={'need_to_load_default', 'reg_entry_load_default', 'ra_reg_is_part_of'})
     for_headers(R, 'C04.c', 'register_init', [(1, 'areas'), (1, 'entries'), (0, 'areas'), (0, 'entries'), (0, 'areas')])
     scan_rule(R, 'C04.d', 'reg_entry_is_in_memory', 'areas')
     scan_rule(R, 'C04.e', 'ra_first_entry_of_next', 'entries', ('v', 'start'))
